@@ -45,6 +45,21 @@ def run(ctx):
         step = 4000
         for i in range(0, len(cases), step):
             jobs.append(dict(cases=cases[i:i + step], r1cs=r1cs))
+    # mixed-field sessions: ONE process builds the gadgets over several fields in turn (both orders), so anything a gadget remembers
+    # from the field it was first built over (cached modulus, cached constants) shows up as a disagreement with the per-field spec
+    import random as _r
+    rr = _r.Random(ctx.seed * 7919 + 6)
+    picks = []
+    for cases, r1cs in batches:
+        acc = [c for c in cases if c["accept"]]
+        rej = [c for c in cases if not c["accept"]]
+        picks.append(rr.sample(acc, min(len(acc), 12)) + rr.sample(rej, min(len(rej), 12)))
+    k = 3 if ctx.quick else 8
+    for o in range(k):
+        order = picks[:] if o == 0 else (picks[::-1] if o == 1 else rr.sample(picks, len(picks)))
+        inter = [c for grp in order for c in grp[:8]] + [c for tup in zip(*[g[8:] for g in order if len(g) >= 24]) for c in tup]
+        jobs.append(dict(cases=inter, r1cs=False))
+    ctx.cov["mixed_field_sessions"] = k
     with ThreadPoolExecutor(12) as ex:
         results = list(ex.map(lambda j: ctx.run_vh(["c06"], j, timeout=3000, tags=("g_bits",)), jobs))
     n = 0
